@@ -4,6 +4,7 @@ import os
 import subprocess
 import tempfile
 
+import re
 from gcv import facts, model, rules_roots
 from gcv.model import norm
 
@@ -92,8 +93,18 @@ def run(chk, tier):
                  sample={"config": c, "statics": [(s["path"], s["ty"]) for s in prog.statics], "bodies_scanned": len(prog.seed)})
         # construction discipline
         ctx_new = sorted({prog.fn_of_closure(e.caller) for e in prog.callers_of("context::Context::new")})
+        # (a private helper shared by the constructors - `Arena::construct`, a newtype's `new()` - taking no existing
+        # collector state and reachable only through them is part of them)
+        from gcv.props import common as _common0
+        ctors = {"arena::Arena::new", "arena::Arena::try_new", "arena::rootless_mutate"}
+
+        def fresh_only(w):
+            wf = (prog.fn_n.get(w) or [{}])[0]
+            shares = any(("context::Context" in i["s"] or "metrics::Metrics" in i["s"] or "arena::Arena<" in i["s"])
+                         for i in (wf.get("inputs") or []))
+            return not shares and _common0.escapes(prog, w, ctors) is None and bool(list(prog.callers_of(w)))
         chk.inst("context-constructed-per-arena", "context::Context::new[%s]" % c,
-                 set(ctx_new) <= {"arena::Arena::new", "arena::Arena::try_new", "arena::rootless_mutate"} and len(ctx_new) >= 1,
+                 all(w in ctors or fresh_only(w) for w in ctx_new) and len(ctx_new) >= 1,
                  detail="Context::new is called from %s" % ctx_new)
         f = (prog.fn_n.get("context::Context::new") or [{}])[0]
         chk.inst("context-new-takes-no-shared-state", "context::Context::new[%s]" % c, not f.get("inputs"),
@@ -107,8 +118,17 @@ def run(chk, tier):
         a = prog.adts.get("arena::Arena")
         if chk.anchor("arena::Arena", a is not None):
             # the field is found by what it holds (its name is private)
-            ctxf = [f for f in a["variants"][0]["fields"] if "context::Context" in f.get("ty_s", "")]
-            ok = len(ctxf) == 1 and ctxf[0]["ty_s"].startswith("alloc::boxed::Box<context::Context") and not ctxf[0]["pub"]
+            def owns_one_context(ty_s, depth=0):
+                """Box<Context>, or a private local newtype around exactly one field that does (no Rc / Arc / reference)."""
+                if ty_s.startswith("alloc::boxed::Box<context::Context"):
+                    return True
+                w = prog.adts.get(re.sub(r"<.*", "", ty_s))
+                if w and depth < 3 and w["kind"] == "struct" and len(w["variants"][0]["fields"]) == 1:
+                    f0 = w["variants"][0]["fields"][0]
+                    return not f0["pub"] and owns_one_context(f0.get("ty_s", ""), depth + 1)
+                return False
+            ctxf = [f for f in a["variants"][0]["fields"] if "context::Context" in f.get("ty_s", "") or owns_one_context(f.get("ty_s", ""))]
+            ok = len(ctxf) == 1 and owns_one_context(ctxf[0]["ty_s"]) and not ctxf[0]["pub"]
             chk.inst("arena-owns-its-context", "arena::Arena.context[%s]" % c, ok,
                      detail="Arena holds its collector context as %s (must be exactly one private Box<Context>)" % (
                          [f["ty_s"] for f in ctxf] or None))
